@@ -513,7 +513,7 @@ func (s *stressStream) ReassemblyComplete(msgs []*auparse.AuditMessage) {
 			s.bad = "callback mixes sequences"
 		}
 	}
-	re := len(msgs) > 0 && msgs[0].Sequence%5 == 0
+	re := len(msgs) > 0 && msgs[0].Sequence%5 == 0 && msgs[0].Sequence >= 1000
 	s.mu.Unlock()
 	if re {
 		_ = s.r.Maintain()
@@ -535,7 +535,9 @@ func TestC11Stress(t *testing.T) {
 		if it%3 == 1 {
 			timeout = 50 * time.Microsecond
 		}
-		r, _ := libaudit.NewReassembler(it%4, timeout, st)
+		// small buffers (overflow evictions) and a buffer that never overflows (only Close flushes the incomplete events)
+		maxInFlight := []int{0, 1, 2, 3, 8192, 8192}[it%6]
+		r, _ := libaudit.NewReassembler(maxInFlight, timeout, st)
 		st.r = r
 		const G, K = 6, 150
 		all := make([][]*auparse.AuditMessage, G)
@@ -545,7 +547,7 @@ func TestC11Stress(t *testing.T) {
 			go func(g int) {
 				defer wg.Done()
 				for i := 0; i < K; i++ {
-					m := &auparse.AuditMessage{RecordType: auparse.AuditMessageType([]uint16{1300, 1302, eoe, 1327, 1307}[(i+g)%5]), Sequence: uint32(i/3 + g)}
+					m := &auparse.AuditMessage{RecordType: auparse.AuditMessageType([]uint16{1300, 1302, eoe, 1327, 1307}[(i+g)%5]), Sequence: uint32(1000 + i/3 + g)}
 					all[g] = append(all[g], m)
 					r.PushMessage(m)
 					if i%17 == 0 {
@@ -554,9 +556,23 @@ func TestC11Stress(t *testing.T) {
 				}
 			}(g)
 		}
-		wg.Wait() // barrier: every push has returned
+		wg.Wait() // barrier: every push of the first phase has returned
 		closeOK := int32(0)
 		var cw sync.WaitGroup
+		// second phase: while Close runs, other goroutines keep pushing records that open NEW events with lower
+		// sequence numbers than everything buffered (they may or may not be delivered, but at most once)
+		late := make([][]*auparse.AuditMessage, 3)
+		for g := 0; g < 3; g++ {
+			cw.Add(1)
+			go func(g int) {
+				defer cw.Done()
+				for i := 0; i < 40; i++ {
+					m := &auparse.AuditMessage{RecordType: 1300, Sequence: uint32(900 - 3*i - g)}
+					late[g] = append(late[g], m)
+					r.PushMessage(m)
+				}
+			}(g)
+		}
 		for g := 0; g < 3; g++ {
 			cw.Add(1)
 			go func() {
@@ -568,7 +584,7 @@ func TestC11Stress(t *testing.T) {
 		}
 		cw.Wait()
 		hC11.Eval()
-		c := C11Case{MaxInFlight: it % 4, Reenter: "maintain"}
+		c := C11Case{MaxInFlight: maxInFlight, Reenter: "maintain"}
 		if st.bad != "" {
 			hC11.Fail(t, "TestC11Stress", c, "stress round %d: %s", it, st.bad)
 		}
@@ -586,9 +602,115 @@ func TestC11Stress(t *testing.T) {
 				}
 			}
 		}
+		for g := range late {
+			for _, m := range late[g] {
+				if st.got[m] > 1 {
+					hC11.Fail(t, "TestC11Stress", c, "stress round %d: message (seq %d) pushed while Close was running was delivered %d times", it, m.Sequence, st.got[m])
+				}
+			}
+		}
 		hC11.Class("stress-round")
 		hC11.NonTrivial(hx.FP("stress", it), func() string {
 			return fmt.Sprintf("stress round %d: %d goroutines x %d pushes, 3 concurrent Close", it, G, K)
 		})
 	}
+}
+
+// TestC11CloseVsPush: many short attempts of one scenario family — a few records are pushed (their pushes
+// return), then Close runs while other goroutines push records that open new events below, between and
+// above the buffered ones, and Maintain is called. Whatever happens to the late records, every record of
+// the first phase must have been delivered exactly once when all calls have returned. The buffer is large
+// and the timeout long, so that nothing but Close flushes the first phase: windows inside Close's flush
+// (between two yield points, invisible to the controlled scheduler) show up here.
+func TestC11CloseVsPush(t *testing.T) {
+	attempts := hx.EnvInt("VERIF_N", 4000)
+	for attempt := 0; attempt < attempts; attempt++ {
+		st := &stressStream{got: map[*auparse.AuditMessage]int{}}
+		r, _ := libaudit.NewReassembler(4096, time.Hour, st) // never reached (the constructor pre-allocates maxInFlight entries)
+		st.r = r
+		const base = 1 << 20
+		nfirst := 1 + attempt%3
+		var first []*auparse.AuditMessage
+		for i := 0; i < nfirst; i++ {
+			m := &auparse.AuditMessage{RecordType: 1300, Sequence: uint32(base + 7*i + 1)} // sequences not divisible by 5: no re-entrant Maintain
+			first = append(first, m)
+			r.PushMessage(m)
+		}
+		var start int32
+		var wg sync.WaitGroup
+		late := make([][]*auparse.AuditMessage, 3)
+		for p := 0; p < 3; p++ {
+			wg.Add(1)
+			go func(p int) {
+				defer wg.Done()
+				for atomic.LoadInt32(&start) == 0 {
+				}
+				for i := 1; i <= 30; i++ {
+					seq := uint32(base - i*3 - p) // descending: every push opens a new oldest event
+					if (attempt/3)%3 == 1 {
+						seq = uint32(base + 100 + i*3 + p) // ascending
+					} else if (attempt/3)%3 == 2 && i%2 == 0 {
+						seq = uint32(base + 7*(i%nfirst) + 1) // more records for the buffered events
+					}
+					m := &auparse.AuditMessage{RecordType: 1302, Sequence: seq}
+					late[p] = append(late[p], m)
+					r.PushMessage(m)
+				}
+			}(p)
+		}
+		closeOK := int32(0)
+		for cg := 0; cg < 1+attempt%2; cg++ {
+			wg.Add(1)
+			go func() {
+				defer wg.Done()
+				for atomic.LoadInt32(&start) == 0 {
+				}
+				for i := 0; i < (attempt%64)*8; i++ { // a short, varying delay: Close lands in the middle of the pushes
+					atomic.LoadInt32(&start)
+				}
+				if r.Close() == nil {
+					atomic.AddInt32(&closeOK, 1)
+				}
+			}()
+		}
+		if attempt%4 == 0 {
+			wg.Add(1)
+			go func() {
+				defer wg.Done()
+				for atomic.LoadInt32(&start) == 0 {
+				}
+				for i := 0; i < 5; i++ {
+					_ = r.Maintain()
+				}
+			}()
+		}
+		atomic.StoreInt32(&start, 1)
+		wg.Wait()
+		hC11.Eval()
+		c := C11Case{MaxInFlight: 4096, Progs: [][]SOp{{P(uint32(base+1), 1300), opC}}}
+		if closeOK != 1 {
+			hC11.Fail(t, "TestC11CloseVsPush", c, "attempt %d: %d Close calls returned nil", attempt, closeOK)
+		}
+		st.mu.Lock()
+		for _, m := range first {
+			if st.got[m] != 1 {
+				hC11.Fail(t, "TestC11CloseVsPush", c, "attempt %d: the record (seq %d) whose push returned before Close was invoked was delivered %d times after Close and all concurrent pushes returned", attempt, m.Sequence, st.got[m])
+			}
+		}
+		for p := range late {
+			for _, m := range late[p] {
+				if st.got[m] > 1 {
+					hC11.Fail(t, "TestC11CloseVsPush", c, "attempt %d: a record pushed while Close was running (seq %d) was delivered %d times", attempt, m.Sequence, st.got[m])
+				}
+			}
+		}
+		if st.bad != "" {
+			hC11.Fail(t, "TestC11CloseVsPush", c, "attempt %d: %s", attempt, st.bad)
+		}
+		st.mu.Unlock()
+		hC11.Class("close-vs-push-attempt")
+	}
+	hC11.NonTrivial(hx.FP("closevspush", attempts), func() string {
+		return fmt.Sprintf("%d attempts: 1-3 buffered records, then Close (x1-2) concurrently with 3 goroutines x 30 pushes of new/old sequences and Maintain", attempts)
+	})
 }
